@@ -2,6 +2,7 @@ package engine
 
 import (
 	"fmt"
+	"sort"
 	"strings"
 	"time"
 
@@ -363,7 +364,7 @@ func runRegChildren(rc *core.RunCtx) {
 			switch o.op {
 			case rSpawn:
 				o.doomed = g.Bool(0.4)
-				sp := &Spec{Kind: kindOf(o.id), ID: idOf(o.id), MaxRestarts: g.Range(0, 2), InboxSize: 4, PanicInit: map[int]bool{}, PanicStarted: map[int]bool{}, PanicStopped: map[int]bool{}}
+				sp := &Spec{Kind: kindOf(o.id), ID: idOf(o.id), MaxRestarts: g.Range(0, 2), InboxSize: 4, SlowStopped: g.Pick(3, 1, 1, 1), PanicInit: map[int]bool{}, PanicStarted: map[int]bool{}, PanicStopped: map[int]bool{}}
 				if o.doomed {
 					for k := 0; k <= sp.MaxRestarts; k++ {
 						if g.Bool(0.5) {
@@ -503,12 +504,59 @@ func runRegChildren(rc *core.RunCtx) {
 			rc.Violate2("C12", "lifecycle-event-missing/duplicate-id/children", "%s: %d ActorDuplicateIdEvents, %d losing SpawnChild calls", id, dup, losing[id])
 		}
 	}
+	// final phase (quiescent): the parent's list of children is exactly the set
+	// of pool ids that are registered now - whatever duplicate spawns, deaths at
+	// birth, stops by third parties and respawns happened - and a parent that
+	// is poisoned now takes every one of them down before it stops itself
+	var alive []string
+	for _, id := range ids {
+		if env.E.Registry.GetPID(kindOf(id), idOf(id)) != nil {
+			alive = append(alive, id)
+		}
+	}
+	rm := env.NewMsg("final", 0)
+	rm.Op = cReport
+	env.Send("final", parent.FullID(), rm, nil)
+	simrt.WaitQuiet(time.Hour)
+	pin := env.actors[parent.FullID()]
+	if pin != nil && len(pin.Reports) > 0 {
+		got := append([]string{}, pin.Reports[len(pin.Reports)-1].Children...)
+		sort.Strings(got)
+		sort.Strings(alive)
+		if strings.Join(got, ",") != strings.Join(alive, ",") {
+			rc.Violate2("C08", "Children-mismatch/respawned-children", "%s: Children()=%v, registered children=%v", parent.FullID(), got, alive)
+		}
+	}
+	simrt.Recv(env.E.Poison(actor.NewPID("local", parent.FullID())).Done())
+	simrt.WaitQuiet(time.Hour)
+	for _, id := range ids {
+		if env.E.Registry.GetPID(kindOf(id), idOf(id)) != nil {
+			rc.Violate2("C08", "child-still-registered/respawned-children", "%s is stopped but its child %s is still registered", parent.FullID(), id)
+		}
+		// every actor that ever ran under a child id is gone by now
+		for k, in := range env.byID[id] {
+			stopped := false
+			if n := len(in.Incs); n > 0 {
+				for _, d := range in.Incs[n-1] {
+					if d.Kind == dStopped {
+						stopped = true
+					}
+				}
+			}
+			if !stopped {
+				rc.Violate2("C08", "child-not-stopped/respawned-children", "%s is stopped, but actor #%d spawned under its child id %s never handled Stopped", parent.FullID(), k+1, id)
+			}
+		}
+	}
 	rc.Nontrivial = len(hist) > 2
 }
 
 func init() {
 	core.Register(&core.Profile{Property: "C10", Name: "children", Weight: 2, Cfg: cfgEngine, Run: runRegChildren,
 		Doc: "one real Engine; a parent actor spawns children from a pool of 1-2 ids through Context.SpawnChild on command (40% of them doomed: the receiver panics in Initialized/Started until the restart budget 0-2 is exhausted, so the child lives and dies inside the call), 1-3 tasks stop/poison-and-wait and look up the children meanwhile; oracle: porcupine linearizability against the set-of-registered-ids model, Producer runs per winning spawn (1 + restarts of a doomed child) and never for a loser, one ActorDuplicateIdEvent per losing spawn: an id whose actor died can be spawned again",
+		Faults: []string{"actor-crash-in-Initialized", "actor-crash-in-Started", "restart-budget-exceeded", "concurrent stop/poison"}})
+	core.Register(&core.Profile{Property: "C08", Name: "respawned-children", Weight: 2, Cfg: cfgEngine, Run: runRegChildren,
+		Doc: "the SpawnChild scenario of C10: a parent spawning children from a pool of 1-2 ids on command - duplicates of live children, children that die at birth, respawns after (or while) a child is stopped by a third party, slow Stopped handlers; oracle for C08: at the final quiescent point Children() is exactly the set of registered child ids, and when the parent is then poisoned every actor that ever ran under a child id has handled Stopped and is unregistered",
 		Faults: []string{"actor-crash-in-Initialized", "actor-crash-in-Started", "restart-budget-exceeded", "concurrent stop/poison"}})
 	core.Register(&core.Profile{Property: "C12", Name: "duplicate-child-events", Weight: 1, Cfg: cfgEngine, Run: runRegChildren,
 		Doc: "the SpawnChild scenario of C10 (a parent spawning children from a pool of 1-2 ids on command, some doomed, stop/poison callers); oracle for C12: exactly one ActorDuplicateIdEvent per SpawnChild call that lost to a live child of the same id"})
